@@ -483,6 +483,10 @@ def _eq(left: object, right: object) -> bool:  # noqa: PLR0911
 
 
 def _lt(left: object, right: object) -> bool:
+    # Remember bool is a subclass of int in Python. Booleans are never ordered.
+    if isinstance(left, bool) or isinstance(right, bool):
+        return False
+
     if isinstance(left, str) and isinstance(right, str):
         return left < right
 
